@@ -155,8 +155,20 @@ def make_vector(rng, regs, template_settings, mode, fixed):
 
     Returns (settings, expectations) where expectations = list of (reg_name, bitfield_name|None, int value)."""
     settings, expect = {}, []
+    k = 0  # running index of the configured items (for the alternating patterns)
     for reg_name, tval in template_settings.items():
         reg = regs.find_reg(reg_name, include_group_regs=True)
+        if isinstance(tval, dict) and mode == "regvals" and not any(is_fixed(fixed, reg_name, b) for b in tval):
+            # "all registers is possible to define also as one value although the bitfields are used" (TEMPLATE_NOTE)
+            # (bits of the register that no bit-field - named or gap - covers have no representation in a configuration
+            #  by design: the value is drawn inside the covered bits)
+            cover = 0
+            for b in reg._bitfields:
+                cover |= ((1 << b.width) - 1) << b.offset
+            v = rng.getrandbits(reg.width) & cover
+            settings[reg_name] = hex(v)
+            expect.append((reg_name, None, v))
+            continue
         if isinstance(tval, dict):
             d = {}
             for bf_name, bval in tval.items():
@@ -165,7 +177,8 @@ def make_vector(rng, regs, template_settings, mode, fixed):
                     continue
                 bf = reg.find_bitfield(bf_name)
                 shift = bf.config_width - bf.width  # SHIFT_RIGHT processor: the configuration carries value << count
-                raw = {"zeros": 0, "ones": (1 << bf.width) - 1}.get(mode)
+                k += 1
+                raw = {"zeros": 0, "ones": (1 << bf.width) - 1, "even": ((1 << bf.width) - 1) * (k % 2), "odd": ((1 << bf.width) - 1) * ((k + 1) % 2)}.get(mode)
                 if raw is None:
                     raw = rng.getrandbits(bf.width)
                 v = raw << shift
@@ -184,7 +197,8 @@ def make_vector(rng, regs, template_settings, mode, fixed):
                 settings[reg_name] = tval
                 continue
             w = reg.width
-            v = {"zeros": 0, "ones": (1 << w) - 1}.get(mode)
+            k += 1
+            v = {"zeros": 0, "ones": (1 << w) - 1, "even": ((1 << w) - 1) * (k % 2), "odd": ((1 << w) - 1) * ((k + 1) % 2)}.get(mode)
             if v is None:
                 v = rng.getrandbits(w)
                 if reg.alt_widths:  # keep the value unambiguous for alternative-width registers (both end bytes non-zero)
@@ -532,20 +546,33 @@ def _install_fast_registers_copy():
     _RegistersBase._verif_fast_copy = True
 
 
+def _crash(rec, cid):
+    """An exception that escaped: raised by the real code (a frame of /repo/spsdk is the innermost one) = the implementation
+    fails where it did not before -> an oracle failure with the case attached; raised by the harness itself = infrastructure."""
+    tb = traceback.format_exc()
+    frames = [ln for ln in tb.splitlines() if ln.strip().startswith("File ")]
+    repo = str(os.environ.get("SPSDK_REPO", "/repo")) + "/spsdk"
+    if frames and repo in frames[-1]:
+        rec.fails.append(((cid, "unexpected-exception"), "the implementation raised an unexpected exception while the harness inspected the area",
+                          tb[-900:], None, None))
+    else:
+        rec.infra = tb[-3000:]
+
+
 def run_case(args):
-    case, seed, nrand, keys = args
+    case, seed, modes, keys = args
     cid = case_id(case)
     rec = Rec(cid)
     t0 = time.time()
     try:
-        _run_case(case, seed, nrand, keys, rec)
-    except Exception:  # noqa: BLE001  -- a crash of the harness itself inside a worker
-        rec.infra = traceback.format_exc()[-3000:]
+        _run_case(case, seed, modes, keys, rec)
+    except Exception:  # noqa: BLE001
+        _crash(rec, cid)
     rec.t = time.time() - t0
     return rec
 
 
-def _run_case(case, seed, nrand, keys, rec):
+def _run_case(case, seed, modes, keys, rec):
     import logging
 
     import yaml
@@ -594,10 +621,10 @@ def _run_case(case, seed, nrand, keys, rec):
     vectors = [("template", tsettings, [])]
     if kind == "tz":
         names = list(tsettings)
-        for mode in ["zeros", "ones"] + ["rand"] * nrand:
+        for mode in modes:
             d = {}
-            for n in names:
-                v = {"zeros": 0, "ones": 0xFFFFFFFF}.get(mode)
+            for j, n in enumerate(names):
+                v = {"zeros": 0, "ones": 0xFFFFFFFF, "even": 0xFFFFFFFF * (j % 2), "odd": 0xFFFFFFFF * ((j + 1) % 2)}.get(mode)
                 v = rng.getrandbits(32) if v is None else v
                 d[n] = rng.choice([f"0x{v:08x}", f"0x{v:08X}", v])
             if mode == "rand":  # a sparse customisation: only some registers given, the rest comes from the family presets
@@ -606,7 +633,7 @@ def _run_case(case, seed, nrand, keys, rec):
                         del d[n]
             vectors.append((mode, d, []))
     else:
-        for mode in ["zeros", "ones"] + ["rand"] * nrand:
+        for mode in modes:
             s, ex = make_vector(rng, regs0, tsettings, mode, A.fixed)
             vectors.append((mode, s, ex))
 
@@ -639,6 +666,12 @@ def _finding_readback(A, regs, bad):
     than the declared width of the group (mcxn54x/94x revision a0: CUST_MK_SK_KEY_BLOB, DICE_Certificate)."""
     if not bad or regs is None:
         return None
+    if A.kind == "cmactable":
+        # C12-cmactable-...: the lost values belong to registers that other registers of the CMACTABLE specification overlap
+        iv = [(r.offset, r.offset + r.width // 8, r.name) for r in regs._registers]
+        names = {b[0] for b in bad}
+        over = {n for (a0, a1, n) in iv for (b0, b1, m) in iv if (a0, a1, n) != (b0, b1, m) and a0 < b1 and b0 < a1}
+        return "C12-cmactable-duplicate-register-names" if names <= over else None
     for reg_name, bf_name, _v, _got in bad:
         r = pyres(regs.find_reg, reg_name, include_group_regs=True)
         if bf_name is not None or r[0] != "ok":
@@ -916,6 +949,131 @@ def _pfr_specific(A, o1, b1, inp, rec, settings, cfg, rng, keys):
             E(r[0] == "E:spsdk" or r[0] == "ok", inp + ("rotkh", "absent"), "export with a ROTKH on a device without the register fails with a foreign exception", r)
 
 
+
+# ====================================================================== thin CLI stream (latest revision, real click entry points)
+def enumerate_cli_flows():
+    from spsdk.utils.database import get_families
+    flows = []
+    for area in ("cmpa", "cfpa"):
+        flows += [("pfr", area, f) for f in get_families("pfr", area)]
+    for sector in ("ROMCFG", "CMACTable"):
+        flows += [("ifr", sector, f) for f in get_families("ifr", sector.lower())]
+    for tool in ("bca", "fcf", "fcb", "xmcd", "tz"):
+        flows += [(tool, "", f) for f in get_families(tool)]
+    return flows
+
+
+def run_cli(args):
+    flow, seed = args
+    rec = Rec("cli/" + "/".join(x for x in flow if x))
+    t0 = time.time()
+    try:
+        _run_cli(flow, rec)
+    except Exception:  # noqa: BLE001
+        _crash(rec, rec.cid)
+    rec.t = time.time() - t0
+    return rec
+
+
+def _run_cli(flow, rec):
+    import logging
+    import tempfile
+
+    from click.testing import CliRunner
+    logging.disable(logging.CRITICAL)
+    _install_compile_cache()
+    _install_fast_registers_copy()
+    tool, sub, fam = flow
+    cid = rec.cid
+    E = rec.expect
+    runner = CliRunner()
+    base = os.environ.get("VERIF_SCRATCH") or tempfile.gettempdir()
+    d = tempfile.mkdtemp(prefix="c12cli-", dir=base)
+
+    def P(name):
+        return os.path.join(d, name)
+
+    def call(main, argv, what):
+        r = runner.invoke(main, argv, catch_exceptions=True)
+        rec.note((cid, what), f"cli:{tool}:{what}")
+        ok = r.exit_code == 0
+        E(ok, (cid, what, " ".join(argv[:6])), f"CLI step fails: {what}", (r.exit_code, (r.output or "")[-300:], repr(r.exception)[:200]))
+        return ok
+
+    def rd(path):
+        with open(path, "rb") as fh:
+            return fh.read()
+
+    def same(b1, b2, what="the binary generated from the parsed configuration differs from the first one"):
+        E(b1 == b2, (cid, "roundtrip"), what, first_diff(b1, b2))
+
+    if tool in ("pfr", "ifr"):
+        if tool == "pfr":
+            from spsdk.apps.pfr import main
+            sel = ["-t", sub]
+            gen_extra = ["--ignore"]
+            from spsdk.pfr.pfr import BaseConfigArea
+            size = BaseConfigArea.BINARY_SIZE
+        else:
+            from spsdk.apps.ifr import main
+            sel = ["-s", sub]
+            gen_extra = ["-f", fam]  # (ifr generate-binary insists on the family option)
+            from spsdk.pfr import pfr as _p
+            size = (_p.ROMCFG if sub == "ROMCFG" else _p.CMACTABLE).BINARY_SIZE
+        if not call(main, ["get-template", "-f", fam, *sel, "-o", P("t.yaml")], "get-template"):
+            return
+        if not call(main, ["generate-binary", "-c", P("t.yaml"), "-o", P("a.bin"), *gen_extra], "generate-binary"):
+            return
+        E(len(rd(P("a.bin"))) == size, (cid, "size"), "generated binary does not have the documented size", len(rd(P("a.bin"))), size)
+        if not call(main, ["parse-binary", "-f", fam, *sel, "-b", P("a.bin"), "-o", P("p.yaml")], "parse-binary"):
+            return
+        if call(main, ["generate-binary", "-c", P("p.yaml"), "-o", P("b.bin"), *gen_extra], "generate-binary(parsed)"):
+            same(rd(P("a.bin")), rd(P("b.bin")))
+    elif tool in ("bca", "fcf"):
+        from spsdk.apps.nxpimage import main
+        if not call(main, [tool, "get-template", "-f", fam, "-o", P("t.yaml")], "get-template"):
+            return
+        if not call(main, [tool, "export", "-c", P("t.yaml"), "-o", P("a.bin")], "export"):
+            return
+        if not call(main, [tool, "parse", "-b", P("a.bin"), "-f", fam, "-o", P("p.yaml")], "parse"):
+            return
+        if call(main, [tool, "export", "-c", P("p.yaml"), "-o", P("b.bin")], "export(parsed)"):
+            same(rd(P("a.bin")), rd(P("b.bin")))
+    elif tool in ("fcb", "xmcd"):
+        from spsdk.apps.nxpimage import main
+        if not call(main, ["bootable-image", tool, "get-templates", "-f", fam, "-o", P("tpl")], "get-templates"):
+            return
+        files = sorted(os.listdir(P("tpl")))
+        E(len(files) > 0, (cid, "get-templates"), "no template written")
+        for i, fn in enumerate(files):
+            t = os.path.join(P("tpl"), fn)
+            if not call(main, ["bootable-image", tool, "export", "-c", t, "-o", P(f"a{i}.bin")], "export"):
+                continue
+            extra = []
+            if tool == "fcb":
+                import yaml
+                with open(t, encoding="utf-8") as fh:
+                    extra = ["-m", yaml.safe_load(fh)["type"]]
+            if not call(main, ["bootable-image", tool, "parse", "-f", fam, *extra, "-b", P(f"a{i}.bin"), "-o", P(f"p{i}.yaml")], "parse"):
+                continue
+            if call(main, ["bootable-image", tool, "export", "-c", P(f"p{i}.yaml"), "-o", P(f"b{i}.bin")], "export(parsed)"):
+                same(rd(P(f"a{i}.bin")), rd(P(f"b{i}.bin")))
+    elif tool == "tz":
+        from spsdk.apps.nxpimage import main
+        from spsdk.image.trustzone import TrustZone
+        if not call(main, ["tz", "get-template", "-f", fam, "-o", P("t.yaml")], "get-template"):
+            return
+        import yaml
+        with open(P("t.yaml"), encoding="utf-8") as fh:
+            out = yaml.safe_load(fh).get("tzpOutputFile")
+        if not call(main, ["tz", "export", "-c", P("t.yaml")], "export"):
+            return
+        b = rd(os.path.join(d, out))
+        E(len(b) == TrustZone.get_preset_data_size(fam), (cid, "size"), "TrustZone binary does not have the documented size", len(b))
+        r = pyres(lambda: TrustZone.from_binary(fam, b).export())
+        same(b, r[1] if r[0] == "ok" else b"", "from_binary(export) does not export the same binary")
+
+
 # ====================================================================== run
 def run(ck):
     import multiprocessing as mp
@@ -930,26 +1088,42 @@ def run(ck):
               "exhaustive enumeration on the real code only (a complete finite sweep, not a theorem)",
               "hashlib SHA-256/384 is the reference for ROTKH; the key-hash table rules are re-implemented in the harness from the format description",
               "fastjsonschema.compile is memoised per schema text inside the workers (pure function of the schema; speed only)",
+              "inside the workers a deep copy of a Registers object shares the read-only database entry instead of copying it (XMCD.registers "
+              "copies on every access: 20 s per case otherwise; speed only)",
               "the OTP fuse map has no binary form in SPSDK (fuses are burnt word by word): its round trip is template/config/values only",
               "structural fields (BCA/FCB tag, XMCD header word) keep their template values in the random value vectors; every other register and bit-field gets in-range values")
     DatabaseManager()  # load the database once in the parent; workers inherit it through fork
     cases = enumerate_cases()
-    nrand = ck.budget(2, 12)
+    nrand = ck.budget(1, 10)
+    modes = ["zeros", "ones"] + ck.budget([], ["even", "odd"]) + ["regvals"] + ["rand"] * nrand
     keys = make_keys(random.Random(f"C12/keys/{ck.seed}"))
     only = os.environ.get("VERIF_C12_ONLY")
     if only:
-        cases = [c for c in cases if only in case_id(c)]
-    jobs = [(c, ck.seed, nrand, keys) for c in cases]
+        cases = [c for c in cases if any(o in case_id(c) for o in only.split(","))]
+    jobs = [(c, ck.seed, modes, keys) for c in cases]
     # big cases first for a better makespan
     order = {"fcb": 0, "fuses": 1, "cmpa": 2, "cfpa": 3, "xmcd": 4, "romcfg": 5}
     jobs.sort(key=lambda j: (order.get(j[0][0], 9), case_id(j[0])))
     nproc = int(os.environ.get("VERIF_C12_PROCS", str(min(16, os.cpu_count() or 4))))
     t0 = time.time()
+    flows = enumerate_cli_flows()
+    if only:
+        flows = [f for f in flows if any(o in "cli/" + "/".join(x for x in f if x) for o in only.split(","))]
+    elif ck.quick:  # quick: three flows per tool, thorough: every family
+        rr = random.Random(f"C12/cli/{ck.seed}")
+        by_tool = {}
+        for f in flows:
+            by_tool.setdefault((f[0], f[1]), []).append(f)
+        flows = [f for _k, fs in sorted(by_tool.items()) for f in rr.sample(fs, k=min(3, len(fs)))]
+    cjobs = [(f, ck.seed) for f in flows]
     if nproc <= 1:
         recs = [run_case(j) for j in jobs]
+        crecs = [run_cli(j) for j in cjobs]
     else:
         with mp.get_context("fork").Pool(nproc) as pool:
-            recs = pool.map(run_case, jobs, chunksize=1)
+            ares = pool.map_async(run_case, jobs, chunksize=1)
+            cres = pool.map_async(run_cli, cjobs, chunksize=1)
+            recs, crecs = ares.get(), cres.get()
     recs.sort(key=lambda r: r.cid)
     ck.extra["sweep_wall_s"] = round(time.time() - t0, 1)
     ck.extra["cases_by_area"] = {}
@@ -958,7 +1132,8 @@ def run(ck):
 
     s = ck.stream("area_sweep", f"COMPLETE enumeration of the live database: {len(cases)} (family, revision, area, sub-feature/memory type) cases "
                   f"({', '.join(f'{k}={v}' for k, v in sorted(ck.extra['cases_by_area'].items()))}); per case the template plus the value vectors "
-                  f"all-zeros, all-ones and {nrand} random in-range vectors over every visible register and bit-field go through "
+                  f"{'/'.join(dict.fromkeys(modes))} (all-zeros, all-ones{', alternating max/0' if 'even' in modes else ''}, every register as one whole value, "
+                  f"{nrand} random in-range vectors) over every visible register and bit-field go through "
                   "template/YAML/schema/load/export/size/parse/verify/export/get_config/load/export and the independent computed-field checks; "
                   "non-trivial = distinct (case, vector)")
     s.exhaustive = True
@@ -971,6 +1146,17 @@ def run(ck):
         for inp, what, obs, exp, finding in r.fails:
             s.expect(False, inp, what, obs, exp, finding=finding)
     ck.extra["slowest_cases"] = [(r.cid, round(r.t, 2)) for r in sorted(recs, key=lambda r: -r.t)[:5]]
+    sc = ck.stream("cli_flow", f"{len(flows)} tool/family flows through the real click entry points (pfr, ifr, nxpimage bca|fcf|tz, nxpimage bootable-image "
+                   "fcb|xmcd; latest revision): get-template -> generate/export -> parse -> generate/export again, binaries equal and of the documented "
+                   "size" + ("; quick = three random families per tool" if ck.quick else "; every supported family") + "; non-trivial = distinct (flow, step)")
+    cinfra = [r for r in crecs if r.infra]
+    if cinfra:
+        raise Infra(f"harness worker crashed on {cinfra[0].cid}:\n{cinfra[0].infra}")
+    for r in sorted(crecs, key=lambda r: r.cid):
+        for inp, cls in r.evals:
+            sc.note(inp, cls=cls)
+        for inp, what, obs, exp, finding in r.fails:
+            sc.expect(False, inp, what, obs, exp, finding=finding)
     _correspondence(ck, drv, cases, recs)
 
 
@@ -999,8 +1185,8 @@ def _correspondence(ck, drv, cases, recs):
     live_ids = {r.cid for r in recs}
     gen_ids = set(rows) | set(tz_rows)
     only = os.environ.get("VERIF_C12_ONLY")
-    if only:  # debugging aid: a sub-set of the cases
-        gen_ids = {g for g in gen_ids if only in g}
+    if only:  # debugging aid / replay: a sub-set of the cases
+        gen_ids = {g for g in gen_ids if any(o in g for o in only.split(","))}
         rows = {k: v for k, v in rows.items() if k in gen_ids}
     if live_ids != gen_ids:
         raise Infra("the statically generated list of (area, family, revision, sub-feature) rows differs from the live database enumeration: "
@@ -1099,4 +1285,12 @@ def _correspondence(ck, drv, cases, recs):
 
 
 def replay(ck, data):
+    """re-run the cases named in a replay file (all of them when none can be identified)"""
+    cids = set()
+    for c in data.get("cases", []) + data.get("disagreements", []):
+        inp = c.get("input")
+        if isinstance(inp, list) and inp and isinstance(inp[0], str) and "/" in inp[0]:
+            cids.add(inp[0])
+    if cids:
+        os.environ["VERIF_C12_ONLY"] = ",".join(sorted(cids))
     run(ck)
